@@ -4,6 +4,8 @@
 package fsops
 
 import (
+	"strings"
+	"bytes"
 	"fmt"
 	"os"
 	"path/filepath"
@@ -121,6 +123,34 @@ func Apply(fs FS, root string, o Op, seq int) error {
 		default:
 			return fs.Symlink(src, path)
 		}
+	case "move-over-preserving":
+		// the file is replaced (rename over it) by one of the same size carrying the same modification
+		// time, with other content: what rsync -t, cp -p or an unpacked archive produce
+		fi, err := os.Lstat(path)
+		if err != nil || !fi.Mode().IsRegular() {
+			return fmt.Errorf("not applicable")
+		}
+		old, err := os.ReadFile(path)
+		if err != nil {
+			return fmt.Errorf("not applicable")
+		}
+		var neu []byte
+		for _, c := range []string{"A", "B", "Y"} {
+			if bytes.Contains(old, []byte(c+":"+marker)) {
+				neu = bytes.Replace(old, []byte(c+":"+marker), []byte(strings.ToLower(c)+":"+marker), 1)
+			}
+		}
+		if neu == nil {
+			return fmt.Errorf("not applicable")
+		}
+		src := filepath.Join(outside, fmt.Sprintf("preserved%d-%s", seq, o.Name))
+		if err := os.WriteFile(src, neu, 0o644); err != nil {
+			return err
+		}
+		if err := os.Chtimes(src, fi.ModTime(), fi.ModTime()); err != nil {
+			return err
+		}
+		return fs.Rename(src, path)
 	case "rename-away":
 		if !exists(path) {
 			return fmt.Errorf("not applicable")
@@ -151,6 +181,16 @@ func Apply(fs FS, root string, o Op, seq int) error {
 			return fmt.Errorf("not applicable")
 		}
 		return fs.RemoveAll(dir)
+	case "recreate":
+		// the Spec directory is removed with whatever it holds and created again, empty, right away
+		// (what a package re-installation does): one operation, no pause in between
+		if !exists(dir) {
+			return fmt.Errorf("not applicable")
+		}
+		if err := fs.RemoveAll(dir); err != nil {
+			return err
+		}
+		return fs.Mkdir(dir, 0o755)
 	case "mvdir-away":
 		// the Spec directory itself is renamed away (with whatever it contains)
 		if !exists(dir) {
@@ -191,10 +231,21 @@ func Alphabet(dirs []string, optionalDirs []string) []Op {
 		ops = append(ops, Op{Kind: "link-in", Dir: d, Name: "x.yaml", Content: "A"})
 		ops = append(ops, Op{Kind: "symlink-in", Dir: d, Name: "x.yaml", Content: "B"})
 		ops = append(ops, Op{Kind: "create-empty", Dir: d, Name: "x.yaml"})
+		ops = append(ops, Op{Kind: "move-over-preserving", Dir: d, Name: "x.yaml"})
 	}
 	for _, d := range optionalDirs {
 		ops = append(ops, Op{Kind: "mkdir", Dir: d}, Op{Kind: "rmtree", Dir: d})
 		ops = append(ops, Op{Kind: "mvdir-away", Dir: d}, Op{Kind: "mvdir-in", Dir: d, Name: "x.yaml", Content: "A"})
+		ops = append(ops, Op{Kind: "recreate", Dir: d})
 	}
 	return ops
+}
+
+// Steps splits an operation into the steps an event-stream conformance run separates by a
+// barrier (recreate = rmtree, then mkdir); every other operation is one step.
+func Steps(o Op) []Op {
+	if o.Kind == "recreate" {
+		return []Op{{Kind: "rmtree", Dir: o.Dir}, {Kind: "mkdir", Dir: o.Dir}}
+	}
+	return []Op{o}
 }
